@@ -22,6 +22,8 @@ Fixpoint sx_copy (t : rt) : sx :=
 Definition sx_copies (f : forest) : sx := L (map sx_copy f).
 Definition sx_shapes (f : forest) : sx := L (map sx_shape f).
 
+Definition sx_err {X} (o : outcome X) : sx := match o with Ok _ => A 0 | EValue => A 3 end.
+
 Definition run08 (c : case08) : sx :=
   let f := fst (fst c) in
   let v := fun n => classify_cp (call_predicate (rmap (snd (fst c)) n)) in   (* as seen by _add_filtered *)
@@ -33,7 +35,9 @@ Definition run08 (c : case08) : sx :=
       L [ L [sx_copies r; sx_copies r];                  (* Tree.filtered, Tree.copy(predicate=) *)
           sx_shapes f;                                    (* the source afterwards *)
           sx_shapes ip; sx_nat (length (ids ip));         (* Tree.filter *)
-          L [sx_ids (af_calls v f); sx_ids (af_calls v f); sx_ids (ip_calls w f)] ]
+          L [sx_ids (af_calls v f); sx_ids (af_calls v f); sx_ids (ip_calls w f)];
+          (* without a predicate: Tree.copy(), Tree.filtered(None), Tree.filter(None) *)
+          L [sx_copies (api_copy None f 1); sx_err (api_filtered None f 1); sx_err (api_filter None f)] ]
   | Some z =>
       let n := Z.to_nat z in
       match find_node n f with
@@ -46,6 +50,9 @@ Definition run08 (c : case08) : sx :=
           L [ L [sx_copies r1; sx_copies r1; sx_copies r0];   (* Node.filtered, Node.copy(predicate=), Node.copy(add_self=False, predicate=) *)
               sx_shapes f;
               sx_shapes ip; sx_nat (length (ids ip));         (* Node.filter *)
-              L [sx_ids (af_calls v g); sx_ids (af_calls v g); sx_ids (af_calls v g); sx_ids (ip_calls w g)] ]
+              L [sx_ids (af_calls v g); sx_ids (af_calls v g); sx_ids (af_calls v g); sx_ids (ip_calls w g)];
+              (* Node.copy(), Node.copy(add_self=False), Node.filtered(None), Node.filter(None) *)
+              L [sx_copies [T 1 (rinfo t) (api_copy None g 2)]; sx_copies (api_copy None g 1);
+                 sx_err (api_filtered None g 2); sx_err (api_filter None g)] ]
       end
   end.
